@@ -1028,3 +1028,24 @@ def delay_add_only_schedules(chk, rule):
     path = cfg.must_pass(cfg.entry.id, sched) if sched else [cfg.entry.id]
     chk.ob(rule, "every returning path of DelayManager.add registers the delay with the clock", path is None, f.where(), construct=f.ident,
            text="add schedules on every path", path=cfg.fmt_path(path, f) if path and len(path) > 1 else None, nontrivial=True)
+
+
+def mode_stop_clears_delays(chk, rule):
+    """An accepted Mode.stop clears the mode's delays (a delayed device control event of the ending turn must not fire into the next
+    player's turn), and each mode owns its DelayManager."""
+    repo = chk.repo
+    f = repo.func("mpf/core/mode.py", "Mode.stop")
+    chk.analysed(f)
+    cfg = f.cfg()
+    mark = [n for n in cfg.nodes_where(lambda n: n.kind == "stmt" and isinstance(n.ast, ast.Assign) and
+                                       src(n.ast.targets[0]) == "self.stopping" and src(n.ast.value) == "True")]
+    clr = [n.id for n, c in cfg.calls_named("clear") if src(c.func.value) == "self.delay"]
+    if not mark:
+        # the stop protocol itself is C07's subject; here only: whatever path gets past the guards clears the delays
+        mark = [cfg.entry]
+    w = cfg.must_pass(mark[0].id, clr) if not any(cfg.dominates(c, mark[0].id) for c in clr) else None
+    chk.ob(rule, "an accepted Mode.stop clears the mode's delays", bool(clr) and w is None, f.where(),
+           path=cfg.fmt_path(w, "mpf/core/mode.py") if w else None, construct=f.ident, text="mode stop clears delays")
+    init = repo.func("mpf/core/mode.py", "Mode.__init__")
+    ok = any(isinstance(n, ast.Assign) and src(n.targets[0]) == "self.delay" and "DelayManager" in src(n.value) for n in walk_local(init.node))
+    chk.ob(rule, "each mode owns its DelayManager", ok, init.where(), construct=init.ident, text="mode delay manager")
